@@ -220,6 +220,9 @@ func ruleConsumeContained(c *Ctx) {
 			if cc := callCommon(ins); cc != nil && cc.IsInvoke() && cc.Method.Name() == "Close" {
 				if f, _, ok := fieldLoad(cc.Value); ok && f.Name() == "consumer" {
 					s.Close = 1
+					if s.Stop != 1 {
+						s.Close = 2 // closed while still attached
+					}
 					return []st{s}
 				}
 			}
@@ -230,7 +233,10 @@ func ruleConsumeContained(c *Ctx) {
 	ok := true
 	for ret, sts := range res.Exits() {
 		for _, s := range sts {
-			if s.Stop != 1 || s.Close != 1 {
+			if s.Close == 2 {
+				ok = false
+				c.Bad("consume.defer:detach-and-close", p.InstrPos(ret), "the cleanup closes the consumer before it detaches it: if that Close panics (it just failed in Consume) or never returns, StopConsume is not reached, the dead consumer stays registered, the count stays up and the publisher keeps filling a queue nobody reads")
+			} else if s.Stop != 1 || s.Close != 1 {
 				ok = false
 				c.Bad("consume.defer:detach-and-close", p.InstrPos(ret), fmt.Sprintf("a path of the cleanup closure returns without StopConsume(%v)/consumer.Close(%v): a failed consumer stays attached or its connection stays open", s.Stop == 1, s.Close == 1))
 			}
